@@ -136,20 +136,20 @@ Qed.
 Lemma next_frame_frame cfg st total h p :
   next_frame cfg st = NFFrame total h p ->
   peek (cache st) = PKnown h /\ total = frame_total h /\ p = body_of h (cache st) /\
-  too_large_wrap (msg_limit cfg) (msg_len st + h_n h) = false /\
+  (is_data (h_op h) = true -> too_large_wrap (msg_limit cfg) (msg_len st + h_n h) = false) /\
   ((125 <? h_n h) && is_control (h_op h)) = false /\
   frame_total h < LIM63 /\ frame_total h <= len (cache st).
 Proof.
-  unfold next_frame. destruct (peek (cache st)) as [| | |h0]; try discriminate.
-  - destruct (too_large_unknown _ _); discriminate.
-  - destruct (too_large_wrap _ _) eqn:E1; [discriminate|].
+  unfold next_frame. destruct (peek (cache st)) as [|op0| |h0]; try discriminate.
+  - destruct (is_data op0 && too_large_unknown _ _); discriminate.
+  - destruct (is_data (h_op h0) && too_large_wrap _ _) eqn:E1; [discriminate|].
     destruct ((125 <? h_n h0) && is_control (h_op h0)) eqn:E2; [discriminate|].
     destruct (LIM63 <=? frame_total h0) eqn:E3; [discriminate|].
     destruct (has_len (cache st) (frame_total h0)) eqn:E4; [|discriminate].
     destruct (valid_frame _ _ _ _ _ _ _); [discriminate|].
     intros H. injection H as <- <- <-.
     rewrite has_len_spec in E4. apply N.leb_le in E4. apply N.leb_gt in E3.
-    repeat split; auto.
+    repeat split; auto. intros Hd. rewrite Hd in E1. exact E1.
 Qed.
 
 Lemma consume_len st total : len (cache (consume st total)) <= len (cache st).
@@ -209,12 +209,12 @@ Proof.
     set (p := body_of h (cache st)) in *.
     assert (Hn : h_n h < LIM62) by (unfold frame_total in Hfit; lia).
     destruct Hi as [Hlim Hmt].
-    (* the declared-length pre-check, without wrap-around *)
-    assert (Hpre : msg_limit cfg = 0 \/ msg_len st + h_n h <= msg_limit cfg).
-    { unfold too_large_wrap, too_large in Htl. destruct Hlim as [Hz|Hle]; [now left|].
-      destruct (LIM63 <=? msg_len st + h_n h) eqn:E; [unfold LIM63, LIM62 in *; lia|]. lia. }
     destruct (is_data (h_op h)) eqn:Dop.
-    + (* data frame *)
+    + (* data frame: the declared-length pre-check, without wrap-around *)
+      specialize (Htl eq_refl).
+      assert (Hpre : msg_limit cfg = 0 \/ msg_len st + h_n h <= msg_limit cfg).
+      { unfold too_large_wrap, too_large in Htl. destruct Hlim as [Hz|Hle]; [now left|].
+        destruct (LIM63 <=? msg_len st + h_n h) eqn:E; [unfold LIM63, LIM62 in *; lia|]. lia. }
       set (st1 := if msg_type st =? 0 then set_mt st (h_op h) (h_r1 h) else st).
       assert (M1 : message st1 = message st) by (unfold st1; destruct (msg_type st =? 0); reflexivity).
       assert (C1 : cache st1 = cache st) by (unfold st1; destruct (msg_type st =? 0); reflexivity).
